@@ -14,25 +14,25 @@ const repoMod = "github.com/noble-assets/orbiter/v2"
 // External struct types that are modelled transparently (field by field).
 // Everything else outside the repository is an opaque (uninterpreted) sort.
 var transparentExternal = map[string]bool{
-	"github.com/cosmos/cosmos-sdk/types.Coin":                                             true,
-	"github.com/cosmos/ibc-go/v8/modules/core/04-channel/types.Packet":                    true,
-	"github.com/cosmos/ibc-go/v8/modules/core/02-client/types.Height":                     true,
-	"github.com/cosmos/ibc-go/v8/modules/core/04-channel/types.Acknowledgement":           true,
-	"github.com/cosmos/ibc-go/v8/modules/core/04-channel/types.Acknowledgement_Error":     true,
-	"github.com/cosmos/ibc-go/v8/modules/core/04-channel/types.Acknowledgement_Result":    true,
-	"github.com/cosmos/ibc-go/v8/modules/apps/transfer/types.FungibleTokenPacketData":     true,
-	"github.com/cosmos/ibc-go/v8/modules/apps/transfer/types.DenomTrace":                  true,
-	"github.com/circlefin/noble-cctp/x/cctp/types.MsgDepositForBurn":                      true,
-	"github.com/circlefin/noble-cctp/x/cctp/types.MsgDepositForBurnWithCaller":            true,
-	"github.com/circlefin/noble-cctp/x/cctp/types.MsgReplaceDepositForBurn":               true,
-	"github.com/bcp-innovations/hyperlane-cosmos/x/warp/types.MsgRemoteTransfer":          true,
-	"github.com/bcp-innovations/hyperlane-cosmos/x/warp/types.QueryTokenRequest":          true,
-	"github.com/bcp-innovations/hyperlane-cosmos/x/warp/types.QueryTokenResponse":         true,
-	"github.com/bcp-innovations/hyperlane-cosmos/x/warp/types.WrappedHypToken":            true,
-	"github.com/cosmos/cosmos-sdk/x/bank/types.MsgSend":                                   true,
-	"github.com/cosmos/cosmos-sdk/codec/types.Any":                                        true,
-	"github.com/cosmos/cosmos-sdk/types/query.PageRequest":                                true,
-	"github.com/cosmos/cosmos-sdk/types/query.PageResponse":                               true,
+	"github.com/cosmos/cosmos-sdk/types.Coin":                                          true,
+	"github.com/cosmos/ibc-go/v8/modules/core/04-channel/types.Packet":                 true,
+	"github.com/cosmos/ibc-go/v8/modules/core/02-client/types.Height":                  true,
+	"github.com/cosmos/ibc-go/v8/modules/core/04-channel/types.Acknowledgement":        true,
+	"github.com/cosmos/ibc-go/v8/modules/core/04-channel/types.Acknowledgement_Error":  true,
+	"github.com/cosmos/ibc-go/v8/modules/core/04-channel/types.Acknowledgement_Result": true,
+	"github.com/cosmos/ibc-go/v8/modules/apps/transfer/types.FungibleTokenPacketData":  true,
+	"github.com/cosmos/ibc-go/v8/modules/apps/transfer/types.DenomTrace":               true,
+	"github.com/circlefin/noble-cctp/x/cctp/types.MsgDepositForBurn":                   true,
+	"github.com/circlefin/noble-cctp/x/cctp/types.MsgDepositForBurnWithCaller":         true,
+	"github.com/circlefin/noble-cctp/x/cctp/types.MsgReplaceDepositForBurn":            true,
+	"github.com/bcp-innovations/hyperlane-cosmos/x/warp/types.MsgRemoteTransfer":       true,
+	"github.com/bcp-innovations/hyperlane-cosmos/x/warp/types.QueryTokenRequest":       true,
+	"github.com/bcp-innovations/hyperlane-cosmos/x/warp/types.QueryTokenResponse":      true,
+	"github.com/bcp-innovations/hyperlane-cosmos/x/warp/types.WrappedHypToken":         true,
+	"github.com/cosmos/cosmos-sdk/x/bank/types.MsgSend":                                true,
+	"github.com/cosmos/cosmos-sdk/codec/types.Any":                                     true,
+	"github.com/cosmos/cosmos-sdk/types/query.PageRequest":                             true,
+	"github.com/cosmos/cosmos-sdk/types/query.PageResponse":                            true,
 }
 
 const (
@@ -72,11 +72,11 @@ type TypeReg struct {
 
 func newTypeReg() *TypeReg {
 	return &TypeReg{
-		structs:  map[string]*structInfo{},
-		opaque:   map[string]bool{},
-		tags:     map[string]string{},
-		tagTypes: map[string]types.Type{},
-		boxSorts: map[string]bool{},
+		structs:    map[string]*structInfo{},
+		opaque:     map[string]bool{},
+		tags:       map[string]string{},
+		tagTypes:   map[string]types.Type{},
+		boxSorts:   map[string]bool{},
 		zeroConsts: map[string]string{},
 	}
 }
